@@ -7,6 +7,14 @@ A case is a list of operations (encoding in coq/Model/OpsC13.v):
     [1, c, name, flags]   connection c calls RequestName(name, flags)
     [2, c, name]          ReleaseName         [3, c, name]  GetNameOwner       [4, c, name]  ListQueuedOwners
     [5, c]                connection c's transport is lost
+    [6]                   a new connection is made that does NOT say Hello (it says nothing yet); it, too, is counted:
+                          c is always the position of the connection among the [0] / [6] operations of the case
+    [7, c]                connection c says Hello now (late, when it was made by [6])
+The bus numbers a connection (unique name ':1.k') when its FIRST message arrives, whatever that message is - this is
+what the model's Connect is ("a new connection sends its first message").  For the model a case is therefore
+re-written (translate): a [6] connection gets its Connect immediately before its first call, calls carry the bus
+number of the connection they arrive on, and a step at which the bus has nothing to do ([6] itself, the loss of a
+connection that never sent anything, a Hello of a connection already numbered) is the model's "nothing happens".
 An operation of kind 1-4 may carry one more, last element [sender]: the text the CLIENT itself wrote into the
 SENDER header field (7) of that call (its own unique name, the unique name of another / a lost / a never
 seen connection, a well-known name, the bus's name).  An ordinary client leaves the field out; the caller of
@@ -48,6 +56,13 @@ ASSUMPTIONS = [
     'client writes into its own message headers is input like the name and the flags, so the reference table is '
     'given the operation as issued by the connection it arrived on and the claimed sender is withheld from it.  '
     'Only syntactically valid bus names are claimed',
+    'connections that skip Hello ([6]): txdbus\'s bus serves a call addressed to org.freedesktop.DBus on a connection '
+    'that has not said Hello, and enters the connection into its client table at its first message.  The property '
+    'speaks of "clients" / "the requester" / "the owner ... disconnects" without making Hello a condition, so such a '
+    'connection is a client of the reference table from its first message on (Connect of the model / specification '
+    'placed there), and everything the property says about owners, waiting clients, releases and disconnects is '
+    'demanded of it as of any other.  The reply to a Hello that is not the first message of its connection is not '
+    'compared (the property does not mention it); that it emits no name signal is',
     'exhaustive tier: histories are shared by the name-table state they reach (one representative history per '
     'state, up to renaming of clients and names, for every state reachable in fewer steps than the bound; every '
     'operation of every client is tried from every such state), which covers every history of that length up '
@@ -60,7 +75,8 @@ ODD_NAMES = ['', ':1.2', ':1.9', 'ab', 'a..b', '.a.b', 'a.b.', 'a.1b', 'org.free
 ERR = {'org.freedesktop.DBus.Error.InvalidArgs': 1, 'org.freedesktop.DBus.Error.NameHasNoOwner': 2}
 MEMBER = {1: 'RequestName', 2: 'ReleaseName', 3: 'GetNameOwner', 4: 'ListQueuedOwners'}
 OPNAME = {0: 'Connect', 1: 'RequestName', 2: 'ReleaseName', 3: 'GetNameOwner', 4: 'ListQueuedOwners',
-          5: 'Disconnect'}
+          5: 'Disconnect', 6: 'ConnectWithoutHello', 7: 'Hello'}
+NOTHING = [5, 0]     # for the model: the loss of a connection the bus never numbered - nothing happens
 RULE = "type='signal',interface='org.freedesktop.DBus',member='NameOwnerChanged'"
 
 
@@ -145,14 +161,90 @@ def as_issued(o):
     return o[:-1] if claimed(o) is not None else o
 
 
+class Translation:
+    """a case re-written for the model.  Computed from the case alone (never from what the implementation did):
+    mops      the model's operations, connections by bus number
+    where[i]  indices into mops whose outputs together are what step i must show (the reply of the last one,
+              the signals of all of them)
+    number    position of a connection in the case -> its bus number (absent: never numbered)
+    since     position -> the step at which it was numbered
+    live[i]   bus numbers of the connections that are connected and numbered just after step i
+    silent[i] step i is a Hello that is not the first message of its connection (its reply is not compared)"""
+
+    def __init__(self, case):
+        self.mops, self.where, self.number, self.since, self.live, self.silent = [], [], {}, {}, [], []
+        made, nxt = 0, 1
+        unheard, gone, live = set(), set(), set()
+
+        def emit(mo):
+            self.mops.append(mo)
+            return len(self.mops) - 1
+
+        def first_message(c, i):
+            nonlocal nxt
+            unheard.discard(c)
+            self.number[c], self.since[c] = nxt, i
+            live.add(nxt)
+            nxt += 1
+            return emit([0])
+
+        for i, o in enumerate(case):
+            o = as_issued(o)
+            kind = o[0]
+            quiet = False
+            if kind in (0, 6):
+                made += 1
+                if kind == 0:
+                    idx = [first_message(made, i)]
+                else:
+                    unheard.add(made)
+                    idx = [emit(NOTHING)]
+            else:
+                c = o[1]
+                idx = []
+                if c in unheard and kind != 5:
+                    idx.append(first_message(c, i))
+                if kind == 7:
+                    if not idx:
+                        quiet = True
+                        idx = [emit(NOTHING)]
+                elif c not in self.number:
+                    unheard.discard(c)
+                    idx.append(emit(NOTHING))
+                else:
+                    idx.append(emit([kind, self.number[c]] + list(o[2:])))
+                if kind == 5:
+                    gone.add(c)
+                    live.discard(self.number.get(c))
+            self.where.append(idx)
+            self.live.append(set(live))
+            self.silent.append(quiet)
+
+    def line(self):
+        return '(13 %s)' % common.dump(self.mops)
+
+    def expected(self, outs):
+        """the model's outputs, one per step of the case"""
+        exp = []
+        for idx in self.where:
+            exp.append([outs[idx[-1]][0], sorted([s for j in idx for s in outs[j][1]], key=repr)])
+        return exp
+
+    def who(self, c, i):
+        """how the connection at position c is called at step i: its bus number, or -c while it has none"""
+        return self.number[c] if c in self.number and self.since[c] <= i else -c
+
+
 def run_impl(im, case):
     """-> list of observations [reply, signals], one per operation"""
     b = im.bus.Bus()
     fac = _Factory(b)
-    conns = []           # index k-1 -> BusProtocol of connection number k
+    conns = []           # index k-1 -> BusProtocol of the k-th connection made
     live = set()
     serial = [100]
     obs = []
+    tr = Translation(case)
+    step = [0]
 
     def send(p, member, sig, body, i, sender=None):
         serial[0] += 1
@@ -190,18 +282,28 @@ def run_impl(im, case):
                     en = m.error_name
                     reply = [3, ERR.get(en, 3 if en.startswith('org.txdbus.PythonException') else -3)]
                 elif mt == 4 and m.member == 'NameAcquired' and len(m.body or []) == 1:
-                    sigs.append([1, k, cs(m.body[0])])
+                    sigs.append([1, tr.who(k, step[0]), cs(m.body[0])])
                 elif mt == 4 and m.member == 'NameLost' and len(m.body or []) == 1:
-                    sigs.append([2, k, cs(m.body[0])])
+                    sigs.append([2, tr.who(k, step[0]), cs(m.body[0])])
                 elif mt == 4 and m.member == 'NameOwnerChanged' and k == 1 and len(m.body or []) == 3:
                     sigs.append([3] + [cs(x) for x in m.body])
                 else:
-                    sigs.append([-4, k, mt, str(getattr(m, 'member', None))])
+                    sigs.append([-4, tr.who(k, step[0]), mt, str(getattr(m, 'member', None))])
         return [reply, sorted(sigs, key=repr)]
 
     for i, o in enumerate(case):
         kind = o[0]
+        step[0] = i
         try:
+            if kind == 6:
+                p = im.bus.BusProtocol()
+                p.factory = fac
+                p.makeConnection(FakeTransport())
+                p.setAuthenticationSucceeded()
+                conns.append(p)
+                live.add(len(conns))
+                obs.append(drain(6, len(conns), None))
+                continue
             if kind == 0:
                 p = im.bus.BusProtocol()
                 p.factory = fac
@@ -227,6 +329,12 @@ def run_impl(im, case):
                 live.discard(c)
                 p.connectionLost(im.lost)
                 obs.append(drain(5, c, None))
+            elif kind == 7:
+                ser = send(p, 'Hello', None, None, i)
+                ob = drain(0, c, ser)
+                if tr.silent[i]:
+                    ob[0] = [0]          # a Hello that is not the first message: only its signals (none) are compared
+                obs.append(ob)
             elif kind == 1:
                 ser = send(p, 'RequestName', 'su', [o[2], o[3]], i, claimed(o))
                 obs.append(drain(1, c, ser))
@@ -272,15 +380,8 @@ def no_noc(ob):
 
 
 def live_before(case, i):
-    """connection numbers live just after step i"""
-    live, k = set(), 0
-    for o in case[:i + 1]:
-        if o[0] == 0:
-            k += 1
-            live.add(k)
-        elif o[0] == 5:
-            live.discard(o[1])
-    return live
+    """bus numbers of the connections that are connected (and numbered) just after step i"""
+    return Translation(case).live[i]
 
 
 def conn_of(u):
@@ -311,7 +412,8 @@ def why_step(case, i, io, so):
         return ('%s (step %d, %r): answered %r, the reference table says %r' % (kind, i, o, io[0], so[0]),
                 '%s:%s' % (kind, what))
     what = 'signals'
-    if any(s[0] in (1, 2) and s[1] not in live and not (o[0] == 5 and s[1] == o[1]) for s in io[1]):
+    me = Translation(case).number.get(o[1]) if o[0] == 5 else None
+    if any(s[0] in (1, 2) and s[1] not in live and not (o[0] == 5 and s[1] == me) for s in io[1]):
         what = 'signal-to-dead-client'
     elif any(s[0] < 0 for s in io[1]):
         what = 'unexpected-message'
@@ -404,16 +506,20 @@ def evaluate(ctx, cases, res):
     if not cases:
         return
     cases = [[list(o) for o in c] for c in cases]
-    lines = ['(13 %s)' % common.dump([as_issued(o) for o in c]) for c in cases]
-    outs = common.run_model(lines)
+    trs = [Translation(c) for c in cases]
+    outs = common.run_model([t.line() for t in trs])
     impl_obs = run_impl_all(ctx, cases)
     vres = PerSignature(res)
     dist = res.extra.setdefault('input_distribution', {'ops': {}, 'replies': {}, 'signals': 0, 'length': {}})
     legacy = res.extra.setdefault('legacy_variants_distinguished', {'pre-repair model differs (D21/D22/D23/D28/D31)': 0})
-    for c, o, io in zip(cases, outs, impl_obs):
+    for c, o, io, tr in zip(cases, outs, impl_obs, trs):
         if o == [-1]:
             raise RuntimeError('model rejected input %r' % (c,))
-        mo, lo, so = canon_model(o[0]), canon_model(o[1]), canon_model(o[2])
+        mo, lo, so = tr.expected(o[0]), tr.expected(o[1]), tr.expected(o[2])
+        if any(x[0] == 6 for x in c):
+            dist['histories_with_connections_skipping_hello'] = dist.get('histories_with_connections_skipping_hello', 0) + 1
+            if any(x[0] == 5 and x[1] not in tr.number for x in c):
+                dist['lost_before_any_message'] = dist.get('lost_before_any_message', 0) + 1
         res.traces += 1
         nmut = sum(1 for x in c if x[0] in (1, 2, 5))
         res.count(c, nontrivial=nmut >= 2)
@@ -478,7 +584,7 @@ def probes(names):
 def spec_state(cases):
     """the reference table after each case (from the extracted specification): used only to share histories
     between cases, never for a verdict"""
-    return [o[3] for o in common.run_model(['(13 %s)' % common.dump(c) for c in cases])]
+    return [o[3] for o in common.run_model([Translation(c).line() for c in cases])]
 
 
 def state_key(table, nclients, names):
@@ -497,11 +603,16 @@ def state_key(table, nclients, names):
     return best
 
 
-def gen_exhaustive(ctx, depth, nclients, names, res):
-    """every operation from every state reachable in < depth steps (one representative history per state)"""
+def gen_exhaustive(ctx, depth, nclients, names, res, skip_hello=False):
+    """every operation from every state reachable in < depth steps (one representative history per state).
+    skip_hello: the scripted clients are made without Hello (the observer says Hello); a Hello is one more operation
+    they may issue at any time, and the state of a history is the reference table together with how many connections
+    the bus has not heard from yet"""
     ops = all_ops(nclients, names)
-    mutating = [o for o in ops if o[0] in (1, 2, 5)]
     prefix = [[0]] * (1 + nclients)
+    if skip_hello:
+        ops += [[7, c] for c in range(2, 2 + nclients)]
+        prefix = [[0]] + [[6]] * nclients
     pr = probes(names)
     seen = {}
     frontier = [[]]
@@ -519,18 +630,23 @@ def gen_exhaustive(ctx, depth, nclients, names, res):
         cases.extend(level)
         if last:
             break
-        cand = [c for c in level if c[-len(pr) - 1][0] in (1, 2, 5)]
+        cand = [c for c in level if c[-len(pr) - 1][0] in (1, 2, 5, 7)]
         outs = spec_state(cand)
         nxt = []
         for c, o in zip(cand, outs):
             k = state_key(o, nclients, names)
+            if skip_hello:
+                tr = Translation(c)
+                gone = {x[1] for x in c if x[0] == 5}
+                unheard = [x for x in range(2, 2 + nclients) if x not in tr.number]
+                k = (k, len([x for x in unheard if x not in gone]), len([x for x in unheard if x in gone]))
             if k not in seen:
                 seen[k] = True
                 nxt.append(c[len(prefix):-len(pr)])
         nstates.append(len(nxt))
         frontier = nxt
     res.extra.setdefault('exhaustive_scopes', []).append(
-        {'clients': nclients, 'names': len(names), 'depth': depth, 'ops_per_state': len(ops),
+        {'clients': nclients, 'names': len(names), 'depth': depth, 'ops_per_state': len(ops), 'skip_hello': skip_hello,
          'new_states_per_level': nstates, 'cases': len(cases)})
     return cases
 
@@ -542,10 +658,21 @@ def gen_random(ctx, n, length):
         nconn = 1
         live = []
         h = [[0]]
-        for _ in range(rng.randrange(2, 5)):
-            h.append([0])
+        # in about a third of the histories some connections skip Hello: their first message is whatever call comes
+        pquiet = rng.choice([0.0, 0.0, 0.35, 0.8])
+        unheard = set()
+
+        def connect():
+            nonlocal nconn
             nconn += 1
             live.append(nconn)
+            if rng.random() < pquiet:
+                h.append([6])
+                unheard.add(nconn)
+            else:
+                h.append([0])
+        for _ in range(rng.randrange(2, 5)):
+            connect()
         names = list(GOOD)
         if rng.random() < 0.3:
             names.append(rng.choice(ODD_NAMES))
@@ -554,11 +681,13 @@ def gen_random(ctx, n, length):
         while len(h) < length:
             r = rng.random()
             if not live or r < 0.06:
-                h.append([0])
-                nconn += 1
-                live.append(nconn)
+                connect()
                 continue
             c = rng.choice(live)
+            if c in unheard and rng.random() < 0.1:
+                h.append([7, c])          # a late Hello (it is the first message only if c has not called yet)
+                unheard.discard(c)
+                continue
             nm = rng.choice(names) if rng.random() < 0.95 else rng.choice(ODD_NAMES)
             if r < 0.55:
                 f = rng.randrange(8) if rng.random() < 0.95 else rng.choice([8, 9, 14, 255, 2 ** 32 - 1, 2 ** 31 + 2])
@@ -575,7 +704,7 @@ def gen_random(ctx, n, length):
         # now and then a client fills in the SENDER field of its call itself (client-controlled input, like the name)
         k = 0
         for j, o in enumerate(h):
-            if o[0] == 0:
+            if o[0] in (0, 6):
                 k += 1
             elif o[0] in (1, 2, 3, 4) and rng.random() < 0.06:
                 h[j] = o + [[sender_claims(rng, k, names)]]
@@ -654,7 +783,21 @@ def gen_directed():
     ]
     hs += [[[1, 2, x, 0], [3, 3, x], [4, 3, x], [2, 2, x]] for x in ODD_NAMES]
     hs += [[[3, 2, ':1.%d' % k] for k in range(0, 7)] + [[5, 3], [3, 2, ':1.3'], [3, 2, ':1.03']]]
-    return [P + h + probes([n]) for h in hs]
+    cases = [P + h + probes([n]) for h in hs]
+    # connections that skip Hello: the bus numbers them at their first message
+    qs = [
+        [[1, 2, n, 0], [1, 3, n, 0], [5, 2]],                                # an owner that never said Hello is lost
+        [[1, 3, n, 0], [1, 2, n, 0], [1, 4, n, 0], [5, 2], [5, 3]],           # so is a waiting one; the next inherits
+        [[1, 2, n, 1], [1, 4, n, 2], [7, 2], [2, 4, n], [5, 2]],              # replaced, late Hello
+        [[5, 2], [1, 4, n, 0], [3, 3, ':1.2'], [3, 3, ':1.3'], [5, 4]],       # lost before it sent anything
+        [[3, 4, n], [1, 2, n, 0], [7, 4], [7, 2], [5, 2], [1, 4, n, 4]],
+        [[1, 4, n, 0], [1, 2, 'c.d', 0], [1, 2, n, 0], [1, 4, 'c.d', 0], [5, 4], [5, 2]],
+        [[1, 2, n, 3], [1, 3, n, 3], [1, 4, n, 0], [2, 3, n], [5, 4], [5, 2]],
+    ]
+    for pre in ([[0], [6], [0], [6]], [[0], [6], [6], [6]], [[0], [0], [6], [6]], [[0], [6], [6], [0]]):
+        cases += [pre + h + probes([n, 'c.d']) for h in qs]
+        cases += [pre + h for h in hs[:8]]
+    return cases
 
 
 def run(ctx, res):
@@ -675,9 +818,11 @@ def run(ctx, res):
     if ctx.quick:
         cases += gen_exhaustive(ctx, 4, 3, GOOD, res)
         cases += gen_exhaustive(ctx, 3, 4, GOOD, res)
+        cases += gen_exhaustive(ctx, 3, 3, GOOD, res, skip_hello=True)
     else:
         cases += gen_exhaustive(ctx, 6, 3, GOOD, res)
         cases += gen_exhaustive(ctx, 5, 4, GOOD, res)
+        cases += gen_exhaustive(ctx, 5, 3, GOOD, res, skip_hello=True)
     rnd = gen_random(ctx, ctx.n(1500, 20000), 40)
     cases += rnd
     res.exhaustive = True
